@@ -2,7 +2,8 @@
     with the other days deleted and no period given", and the zone-dependence finding. *)
 From Coq Require Import Lia.
 From HP Require Import Base.Bytes Base.Num Model.Scanner Model.Parser Model.Resolver Model.Dates Model.Writer Model.Reporters Model.Cli
-  Spec.PeriodSpec Proofs.PeriodInterval Proofs.PeriodFilter Proofs.PeriodPick Proofs.PeriodSummary Proofs.PeriodTz.
+  Spec.PeriodSpec Proofs.PeriodInterval Proofs.PeriodFilter Proofs.PeriodPick Proofs.PeriodSummary Proofs.PeriodCivil
+  Proofs.PeriodDays Proofs.PeriodTz.
 Open Scope Z_scope.
 
 Section Run.
@@ -43,6 +44,43 @@ Section Run.
     destruct (stream_of NM olog) as [[evs last] fin] eqn:Es.
     rewrite (period_is_filter_report NM R _ _ toks _ _ olog olog' evs last fin _ Es Hr). reflexivity.
   Qed.
+
+  (** [summary today] under --today s: in EVERY process zone (any offset whatsoever, no bound) and
+      whatever the wall clock says, the run is the walk over the window of the calendar day D that
+      [s] denotes, and that window selects exactly the records dated D.  (Since fix 4fa5d57 the
+      keyword [today] is the date as given; it used to be converted to the local zone.) *)
+  Theorem summary_today_exact_any_zone : forall w tz clock i s op,
+    i_f_today i = Some s -> i_cmd i = CSummary (b "today") -> load (with_zone w tz clock) i = inr op ->
+    exists D, parse_date (rc_date (op_rc op)) s = Some D /\ valid_civil D /\
+      let bt := Some (summary_begin (time_of_civil D)) in
+      let et := Some (summary_end (time_of_civil D)) in
+      run NM (with_zone w tz clock) i = run_db_log NM w op (rep_summary NM (op_rc op)) bt et /\
+      (forall d, valid_civil d -> (in_interval bt et (time_of_civil d) = true <-> d = D)) /\
+      (forall (n : pnode NM) c, parse_date (rc_date (op_rc op)) (header n) = Some c ->
+                                (sel NM (rc_date (op_rc op)) bt et n = true <-> c = D)).
+  Proof.
+    intros w tz clock i s op Hs Hcmd Hload.
+    pose proof (load_period _ _ _ Hload) as (_ & _ & _ & Htoday). rewrite Hs in Htoday.
+    destruct Htoday as [D [Hp Hnow]]. exists D.
+    assert (HD : valid_civil D) by (eapply parse_date_valid; exact Hp).
+    split; [exact Hp|]. split; [exact HD|]. cbv zeta. split; [|split].
+    - unfold run. rewrite Hload, Hcmd, tfs_today, Hnow. reflexivity.
+    - intros d Hd. apply summary_date_selects_calendar_day; assumption.
+    - intros n c Hc. unfold sel. rewrite Hc.
+      apply summary_date_selects_calendar_day; [exact HD|eapply parse_date_valid; exact Hc].
+  Qed.
+
+  (** the same on the process zone alone (the clock of the world as it is) *)
+  Corollary summary_today_exact_any_tz : forall w tz i s op,
+    i_f_today i = Some s -> i_cmd i = CSummary (b "today") -> load (with_tz w tz) i = inr op ->
+    exists D, parse_date (rc_date (op_rc op)) s = Some D /\ valid_civil D /\
+      let bt := Some (summary_begin (time_of_civil D)) in
+      let et := Some (summary_end (time_of_civil D)) in
+      run NM (with_tz w tz) i = run_db_log NM w op (rep_summary NM (op_rc op)) bt et /\
+      (forall d, valid_civil d -> (in_interval bt et (time_of_civil d) = true <-> d = D)) /\
+      (forall (n : pnode NM) c, parse_date (rc_date (op_rc op)) (header n) = Some c ->
+                                (sel NM (rc_date (op_rc op)) bt et n = true <-> c = D)).
+  Proof. intros w tz. exact (summary_today_exact_any_zone w tz (w_clock w)). Qed.
 End Run.
 
 (** *** non-vacuity, and the finding, on a concrete world (exact integers) *)
@@ -110,20 +148,59 @@ Example summary_today_zones :
                      (ex_inv (Some (b "2021/03/14")) None None None None (CSummary (b "today")))) <> [].
 Proof. vm_compute. split; [reflexivity|discriminate]. Qed.
 
+(** the wall clock of [ex_world_log] (2021-03-14 15:00 UTC) as read in a zone at [tz] seconds east
+    where the date is [c] *)
+Definition ex_clock_in (tz : Z) (c : Z * Z * Z) : time :=
+  {| inst := days_from_civil 2021 3 14 * ns_per_day + 15 * 3600 * ns_per_sec; off := tz; civ := c |}.
+
+(** instance of [summary_today_exact_any_zone] with a large offset: --today 2021/03/14, process zone
+    and clock at +10^9 s (and at -40h): [summary today] prints exactly the two records dated 2021/03/14,
+    i.e. what [summary 2021/03/14] prints for the log reduced to that day *)
+Example summary_today_far_zone :
+  run ZNum (with_zone (ex_world_log ex_log3) 1000000000 (ex_clock_in 1000000000 (2052, 11, 20)))
+      (ex_inv (Some (b "2021/03/14")) None None None None (CSummary (b "today")))
+  = run ZNum (ex_world_log ex_log3_only14) (ex_inv None None None None None (CSummary (b "2021/03/14")))
+  /\ run ZNum (with_zone (ex_world_log ex_log3) (-144000) (ex_clock_in (-144000) (2021, 3, 12)))
+      (ex_inv (Some (b "2021/03/14")) None None None None (CSummary (b "today")))
+  = run ZNum (ex_world_log ex_log3_only14) (ex_inv None None None None None (CSummary (b "2021/03/14")))
+  /\ out_stdout (run ZNum (ex_world_log ex_log3_only14) (ex_inv None None None None None (CSummary (b "2021/03/14")))) <> []
+  /\ run ZNum (ex_world_log ex_log3) (ex_inv None None None None None (CSummary (b "2021/03/15")))
+     <> run ZNum (ex_world_log ex_log3_only14) (ex_inv None None None None None (CSummary (b "2021/03/14"))).
+Proof. vm_compute. repeat split; try reflexivity; discriminate. Qed.
+
+(** the hypotheses of [summary_today_exact_any_zone] are met there: the options load, D = 2021/03/14 *)
+Example summary_today_far_zone_loads :
+  exists op, load (with_zone (ex_world_log ex_log3) 1000000000 (ex_clock_in 1000000000 (2052, 11, 20)))
+                  (ex_inv (Some (b "2021/03/14")) None None None None (CSummary (b "today"))) = inr op
+             /\ parse_date (rc_date (op_rc op)) (b "2021/03/14") = Some (2021, 3, 14).
+Proof. eexists. split; vm_compute; reflexivity. Qed.
+
 (** FINDING: without --today the zone matters.  The hypothesis [i_f_today i = Some s] of
-    [tz_independent] cannot be dropped. *)
+    [tz_independent_clock] cannot be dropped: the same instant on the wall clock, read in two real
+    zones, gives two different reports.  (The zone enters through the clock value — [time.Now()] is
+    local — no longer through [w_tz]: under [with_tz] alone the runs are equal,
+    [run_ignores_process_zone].) *)
 Theorem tz_independent_without_today_refuted :
-  exists w i tz1 tz2, tz_ok tz1 /\ tz_ok tz2 /\ i_f_today i = None /\
-                      run ZNum (with_tz w tz1) i <> run ZNum (with_tz w tz2) i.
+  exists w i tz1 tz2 c1 c2, tz_ok tz1 /\ tz_ok tz2 /\ off c1 = tz1 /\ off c2 = tz2 /\ inst c1 = inst c2 /\
+                            i_f_today i = None /\
+                            run ZNum (with_zone w tz1 c1) i <> run ZNum (with_zone w tz2 c2) i.
 Proof.
-  exists (ex_world_log ex_log3), (ex_inv None None None None None (CSummary (b "today"))), 0, (-18000).
+  exists (ex_world_log ex_log3), (ex_inv None None None None None (CSummary (b "today"))), 0, (-18000),
+         (ex_clock_in 0 (2021, 3, 14)), (ex_clock_in (-18000) (2021, 3, 14)).
   unfold tz_ok. repeat split; try lia. vm_compute. discriminate.
 Qed.
 
 (** what it prints at UTC-5 at 10:00 local time on 2021-03-14: the record dated 2021/03/15 *)
 Example summary_today_minus5_prints_tomorrow :
-  run ZNum (with_tz (ex_world_log ex_log3) (-18000)) (ex_inv None None None None None (CSummary (b "today")))
+  run ZNum (with_zone (ex_world_log ex_log3) (-18000) (ex_clock_in (-18000) (2021, 3, 14)))
+      (ex_inv None None None None None (CSummary (b "today")))
   = run ZNum (ex_world_log ex_log3) (ex_inv None None None None None (CSummary (b "2021/03/15"))).
+Proof. vm_compute. reflexivity. Qed.
+
+(** ... and at UTC (the clock of [ex_world_log]) the records dated 2021/03/14 *)
+Example summary_today_utc_prints_today :
+  run ZNum (ex_world_log ex_log3) (ex_inv None None None None None (CSummary (b "today")))
+  = run ZNum (ex_world_log ex_log3) (ex_inv None None None None None (CSummary (b "2021/03/14"))).
 Proof. vm_compute. reflexivity. Qed.
 
 (** *** why "the same file with the other days deleted" is stated on parser events
